@@ -186,13 +186,62 @@ type Ret struct {
 
 type Behaviour struct {
 	Steps []*Step
-	Raw   string // the JSON text, for replay files
+	Phys  []*Phys // physical expectations parallel to Steps (IavlStore.tla), or nil
+	Raw   string  // the JSON text, for replay files
+}
+
+// NodeKey is a storage key of the s key space.
+type NodeKey struct {
+	Ver int64 `json:"ver"`
+	ID  int64 `json:"id"`
+}
+
+// DiskEntry is one expected entry of the s key space.
+type DiskEntry struct {
+	Key  NodeKey `json:"key"`
+	Kind string  `json:"kind"` // leaf | inner | empty | ref
+	H    int     `json:"h"`
+	Sz   int64   `json:"sz"`
+	K    int     `json:"k"`
+	V    int     `json:"v"`
+	L    NodeKey `json:"l"`
+	R    NodeKey `json:"r"`
+	TVer int64   `json:"tver"`
+	TID  int64   `json:"tid"`
+}
+
+type FastEntry struct {
+	K   int   `json:"k"`
+	Val int   `json:"val"`
+	Ver int64 `json:"ver"`
+}
+
+// Phys is the expected physical state after a step.
+type Phys struct {
+	Label int64       `json:"label"`
+	Built int64       `json:"built"`
+	Stale bool        `json:"stale"`
+	Fidx  []FastEntry `json:"fidx"`
+	Disk  []DiskEntry `json:"disk"`
 }
 
 // ParseBehaviour decodes the JSON array of steps.
 func ParseBehaviour(js string) (*Behaviour, error) {
 	var steps []*Step
-	if err := json.Unmarshal([]byte(js), &steps); err != nil {
+	var phys []*Phys
+	if len(js) > 0 && js[0] == '{' {
+		var both struct {
+			H []*Step `json:"h"`
+			P []*Phys `json:"p"`
+		}
+		if err := json.Unmarshal([]byte(js), &both); err != nil {
+			return nil, err
+		}
+		steps, phys = both.H, both.P
+		if len(phys) != len(steps) {
+			return nil, fmt.Errorf("physical history has %d records for %d steps", len(phys), len(steps))
+		}
+	} else if err := json.Unmarshal([]byte(js), &steps); err != nil {
 		return nil, err
 	}
 	for i, s := range steps {
@@ -217,7 +266,7 @@ func ParseBehaviour(js string) (*Behaviour, error) {
 		}
 		s.Work = w
 	}
-	return &Behaviour{Steps: steps, Raw: js}, nil
+	return &Behaviour{Steps: steps, Phys: phys, Raw: js}, nil
 }
 
 // ExtractJSON takes a TLC output line of the form <<"TAG", "....">> and returns the
@@ -274,6 +323,10 @@ func (b *Behaviour) Summary() string {
 			} else {
 				fmt.Fprintf(&sb, "]=%d", s.Ret.Ver)
 			}
+		case "open":
+			fmt.Fprintf(&sb, "open(fast=%v,iv=%d)", s.Args.Fast, s.IV)
+		case "reopenat":
+			fmt.Fprintf(&sb, "reopenat %d(fast=%v)", s.Args.T, s.Args.Fast)
 		case "reopen":
 			fmt.Fprintf(&sb, "reopen(fast=%v)", s.Args.Fast)
 		case "load":
